@@ -4,6 +4,7 @@ import updfam
 import vlib
 
 PID = "C06"
+NEEDS_CLI = True
 RULE = ("parseable files from the C03 grammar generator with arbitrary (mostly wrong) expectations, optionally with included files, x "
         "deterministic scripted databases answering by call index with representable answers (non-empty single-line values, error "
         "texts without two consecutive blank lines, succeeding commands) x column separator {blank, TAB} x default/strict column check; "
@@ -118,4 +119,10 @@ def execute(cases, tier):
              "categories": dict(sorted(cats.items())), "vm_compute_crosschecked": vm_n,
              "samples": [{"files": c["files"], "answers": c["answers"][:3], "sep": c["sep"]} for c in cases[:2]],
              "disagreements": len(disagreements)}
+    # one invocation of the real binary over SEVERAL files: each file is updated under its own modes, with its own runner
+    for clause, what, detail in updfam.cli_tree_checks("override"):
+        if clause in ('fixpoint',):
+            disagreements.append({"case": {"family": "cli-tree", "invocation": "--override t/a_modes.slt t/b_plain.slt"}, "impl": detail,
+                                  "model": "the second file is untouched and passes on its own; the included same-stem file is intact",
+                                  "spec": "contradicts L1 (C06_file_converges, several files in one --override): " + what, "broken": "corr_C06_cli_tree"})
     return {"stats": stats, "disagreements": disagreements, "known_hits": [], "observables": []}
